@@ -463,6 +463,9 @@ def check(r):
         "finite_step_error_growth_partial: the exchange of the u- and t-derivatives (Schwarz) linking the proved "
         "continuous linearisation to error growth over a finite step, and the quantitative bound over a filter step "
         "0.1..2 s, are NOT proved; they are checked numerically on the implementation (tests A and B)",
+        "no-altitude mode: C04_errdyn2d_is_linearisation holds on LEVEL trajectories (VD = 0 and vertical specific "
+        "force f_D = -g + ((2 Omega + rho) x v)_D); for other vertical specific forces the true DV/PHI coupling is "
+        "-f_D instead of the model's g (the mode's own modelling assumption; the numeric tests feed level signals)",
         "the neglected-terms matrix N includes the term (Omega x phi) x v in the DV/PHI block (size <= 0.022 m/s^2 per "
         "rad at 300 m/s, 0.2 % of g) which the implemented modified phi-angle model leaves out",
     ]
